@@ -217,10 +217,11 @@ type ExternSpecs struct {
 	Axioms   []*Clause // global axioms over extern functions
 	Preds    map[string]*PredDef
 	PurePkgs map[string]bool
+	SpecFuncs map[string]*PredDef // uninterpreted, heap independent spec functions (specfunc name(params) ret)
 }
 
 func loadExternSpecs(dir string) (*ExternSpecs, error) {
-	ex := &ExternSpecs{Specs: map[string]*ExternSpec{}, Preds: map[string]*PredDef{}, PurePkgs: map[string]bool{}}
+	ex := &ExternSpecs{Specs: map[string]*ExternSpec{}, Preds: map[string]*PredDef{}, PurePkgs: map[string]bool{}, SpecFuncs: map[string]*PredDef{}}
 	files, _ := filepath.Glob(filepath.Join(dir, "*.spec"))
 	sort.Strings(files)
 	for _, fn := range files {
@@ -311,6 +312,15 @@ func loadExternSpecs(dir string) (*ExternSpecs, error) {
 				c := &Clause{Kind: "axiom", Text: rest, Line: where}
 				ex.Axioms = append(ex.Axioms, c)
 				pending = c
+			case "specfunc":
+				if err := flush(); err != nil {
+					return nil, err
+				}
+				pd, err := parsePredHeader(rest + " = true")
+				if err != nil {
+					return nil, fmt.Errorf("%s: %v", where, err)
+				}
+				ex.SpecFuncs[pd.Name] = pd
 			case "pred", "recfunc":
 				if err := flush(); err != nil {
 					return nil, err
